@@ -22,6 +22,7 @@ DOC = {
         'C04.R3': 'was_modified: relation is mtime > after (or >=), an unreadable mtime yields true, the answer is never reset to false, all files are examined',
         'C04.R4': 'the length filter is skipped only under no_check_size; run_dedupe sets it only via |= transform.is_some(); the regular-file filter is unconditional',
         'C04.R5': 'fetch_files_metadata: try_map_all fails iff any element failed; the failure discards the group',
+        'C04.R7': 'the metadata the staleness tests run on follow symbolic links (fs::metadata), so the time stamp that was_modified compares also covers the link itself: the compared value derives from an lstat (symlink_metadata / link_metadata) of the path as well - a member replaced by a symlink to an old file of the same length after the report is seen as modified',
         'C04.R6': 'the clock read that becomes ReportHeader.timestamp happens before group_files starts reading files',
     },
     'not_decided': 'file-system timestamp granularity; real interleavings of writers with the scan; clock adjustments',
@@ -37,6 +38,7 @@ def run(ctx):
     r4(ctx)
     r5(ctx)
     r6(ctx)
+    r7(ctx)
     from .common import run_mandatory
     run_mandatory(ctx, 'C04')
 
@@ -486,3 +488,45 @@ def callee_before_scan(cg, b, rg, S, c):
     if late:
         return False, 'the header timestamp is sampled in %s (%s), which run_group invokes at %s, after group_files() has read the files: a file rewritten during the scan keeps an mtime below the report timestamp' % (b.path, c.where(), late[0].where()), c.where()
     return True, 'clock read in %s, invoked before group_files()' % b.path, c.where()
+
+
+def r7(ctx):
+    rule = 'C04.R7'
+    lib = ctx.lib
+    wm = ctx.need_body(rule, 'dedupe::was_modified')
+    fm = ctx.need_body(rule, 'file::FileMetadata::new')
+    if wm is None or fm is None:
+        return
+    follows = bool(fm.calls(r'^std::fs::metadata$')) and not fm.calls(r'^std::fs::symlink_metadata$')
+    if not follows:
+        ctx.ok(rule, 'dedupe::was_modified|link-timestamp', fm.where(), 'FileMetadata::new does not follow symbolic links: the compared time stamp is the one of the path itself')
+        return
+    bodies = [wm] + [lib.body(c) for c in lib.closures_of(wm.path)]
+    ok = False
+    site = wm.where()
+    for cmp in comparisons(wm):
+        for side in (cmp.a, cmp.b):
+            sl = backslice(wm, [side])
+            if not sl.has_call(r'Metadata::modified$'):
+                continue
+            site = wm.where(cmp.line)
+            names = set(sl.field_names())
+            calls = list(sl.calls)
+            # closures on the way (and_then(|t| ... link.modified() ...))
+            for c in sl.calls:
+                for a in c.args:
+                    l = op_local(a)
+                    cp = lib.closure_of_type(wm.local_ty(l)) if l is not None else None
+                    cb = lib.body(cp) if cp else None
+                    if cb is not None:
+                        calls += cb.calls()
+                        names |= {n for _, n in backslice(cb, [{'c': [0, []]}]).upvars}
+                        cr = closure_creation(lib, cp)
+                        if cr:
+                            pb, bi, st = cr
+                            names |= set(backslice(pb, rvalue_operands(st['rv'])).field_names())
+            if 'link_metadata' in names or any(k.matches(r'^std::fs::symlink_metadata$|Path::symlink_metadata$') for k in calls):
+                ok = True
+    ctx.check(ok, rule, 'dedupe::was_modified|link-timestamp', site, 'the compared time stamp is the later of the target\'s and the link\'s own modification time',
+              'FileMetadata follows symbolic links and was_modified compares only the time stamp of the target: a member that was replaced after the report by a symlink to an older file of the same '
+              'length passes the regular-file, length and modification tests, is kept as a replica, and the real copies are removed (content lost)')
